@@ -176,7 +176,7 @@ def run(ctx):
                 if q else
                 (("NtsCookies_deep.cfg", 5, None), ("NtsCookies_deepnet.cfg", 2, None), ("NtsCookies_faithful.cfg", 1, "faithful")))
         with ThreadPoolExecutor(max_workers=3) as dp:
-            rs = list(dp.map(lambda c: ctx.tlc("NtsCookiesMC", c[0], workers=c[1], timeout=300 if q else 1500, tag=c[2]), plan))
+            rs = list(dp.map(lambda c: ctx.tlc("NtsCookiesMC", c[0], workers=c[1], timeout=900 if q else 1500, tag=c[2]), plan))
         for r in rs[:2]:
             ctx.log("TLC repaired design (%s): %d distinct states, %d generated, %.0fs" %
                     (r["cfg"], r["distinct"], r["generated"], r["wall_s"]))
